@@ -7,6 +7,8 @@ na = json.load(open(os.path.join(V, "not_applicable.json")))
 checks = []
 for pid in sorted(meta):
     m = meta[pid]
+    if m.get('internal') or m.get('level_text') == 'tbd':
+        continue
     checks.append({
         "property_id": pid,
         "quick_cmd": "python3 /verif/check.py %s --tier quick" % pid,
@@ -29,13 +31,13 @@ man = {
         "add_only": True,
     },
     "engines": [
-        {"name": "kani-overlay", "path": "/verif/vlib/kani.py + /verif/overlay", "serves_properties": sorted(p for p in meta if "K" in meta[p].get("engines", ["K"])),
+        {"name": "kani-overlay", "path": "/verif/vlib/kani.py + /verif/overlay", "serves_properties": sorted(c["property_id"] for c in checks if "kani" in c["engine"]),
          "kind_free_text": "Kani 0.68 / CBMC 6.11 bounded model checking of the real crate; harnesses are child modules overlaid at check time; regenerated from /repo's working tree on every run"},
     ] + ([{"name": "z3-selector-tv", "path": "/verif/vlib/engine_z.py", "serves_properties": sorted(p for p in meta if "Z" in meta[p].get("engines", [])),
            "kind_free_text": "z3 (cross-checked with cvc5) translation validation: AST produced by the real selector front end vs CSS semantics over a symbolic document spine"}] if any("Z" in meta[p].get("engines", []) for p in meta) else []),
     "checks": checks,
     "notes": open(os.path.join(V, "manifest_notes.txt")).read().strip() if os.path.exists(os.path.join(V, "manifest_notes.txt")) else "",
-    "not_applicable": [x for x in na if x["property_id"] not in meta],
+    "not_applicable": [x for x in na if x["property_id"] not in {c["property_id"] for c in checks}],
 }
 json.dump(man, open(os.path.join(V, "MANIFEST.json"), "w"), indent=1)
 print("MANIFEST.json: %d checks, %d not_applicable" % (len(checks), len(man["not_applicable"])))
